@@ -249,6 +249,7 @@ impl<K: EngineKind> Cluster<K> {
         let t0 = Instant::now();
         let rec = Recorder::new();
         let net = Net::new(rec.clone(), seed ^ 0xA5A5, t0);
+        rec.online().net = Some(net.clone());
         let shared = Arc::new(Mutex::new(Shared {
             roles: BTreeMap::new(),
             lease_owner: HashMap::new(),
@@ -362,8 +363,33 @@ impl<K: EngineKind> Cluster<K> {
         };
         std::fs::create_dir_all(cfg.raft.snapshot.snapshots_dir.clone())?;
         let (se, sm) = K::open(&dir, &cfg).await?;
-        let live = start_node::<K::SE, K::SM>(cfg, se, sm, self.net.clone(), self.rec.clone(), inc)
-            .await?;
+        let mut live =
+            start_node::<K::SE, K::SM>(cfg, se, sm, self.net.clone(), self.rec.clone(), inc)
+                .await?;
+        {
+            // membership watcher: publishes this node's committed membership view
+            let mut rx = live.membership_rx.clone();
+            let rec = self.rec.clone();
+            let net = self.net.clone();
+            let push = move |s: &d_engine_server::verif_export::MembershipSnapshot| {
+                rec.push(
+                    net.now(),
+                    Ev::Membership {
+                        node: id,
+                        voters: s.members.iter().cloned().collect(),
+                        learners: s.learners.iter().cloned().collect(),
+                        index: s.committed_index,
+                    },
+                );
+            };
+            push(&rx.borrow_and_update().clone());
+            live.aux_tasks.push(tokio::spawn(async move {
+                while rx.changed().await.is_ok() {
+                    let s = rx.borrow_and_update().clone();
+                    push(&s);
+                }
+            }));
+        }
         {
             let mut sh = self.shared.lock().unwrap();
             sh.lease_owner.insert(Arc::as_ptr(&live.lease) as usize, id);
